@@ -5,7 +5,7 @@ import GojaModel.Generated.C01_PanicKinds
 /-!
   C01 model driver (line protocol, IO glue — not part of the model):
     verify <endOk 0|1> <instr>;<instr>;...      → "ok states=<n>" | "reject pc=<pc> h=<h> <instr> : <why>" | "error <msg>"
-    emit <strict> <p> <expr tokens…>            → "<name>:<n> … | <height result>"   (setPPops from the regenerated fact)
+    emit <strict> <p> <expr tokens…>            → "<name>:<n> … | <height result>"   
     obs <instr> <dpc> <dsp>                     → "ok" | "mismatch edges=<…>" | "error <msg>"
     classify <kind>                             → run=<outcome> compile=<outcome>
     facts                                       → regenerated facts summary
@@ -194,7 +194,7 @@ def cmdEmit (strict p : Bool) (toks : List String) : String :=
   | .error e => "error " ++ e
   | .ok (e, rest) =>
     if !rest.isEmpty then "error trailing tokens" else
-    let cfg : Cfg := ⟨strict, Gen.setPPopsSloppyConst⟩
+    let cfg : Cfg := ⟨strict⟩
     let c := emitE cfg e p
     let flat := c.flat
     let nodes := flat.map (fun x => x.2.2)
